@@ -370,9 +370,12 @@ def _number(max_int=6, max_frac=12):
 
 
 def notation():
-    unc_int = st.integers(0, 9999999).map(str)      # no leading zeros, as in every table
+    # uncertainty digits without leading zeros, as in every table
+    unc_int = st.one_of(st.tuples(st.sampled_from("123456789"), st.text(DIG, max_size=6)).map("".join), st.just("0"))
     unc_pt = st.tuples(st.text(DIG, min_size=1, max_size=3), st.text(DIG, min_size=1, max_size=4)).map(lambda t: t[0] + "." + t[1])
-    paren = st.tuples(_number(), st.one_of(unc_int, unc_int, unc_pt), st.booleans()).map(
+    paren_i = st.tuples(_number(), unc_int, st.booleans()).map(
+        lambda t: {"k": "paren", "s": "%s(%s)%s" % (t[0], t[1], "#" if t[2] else "")})
+    paren_p = st.tuples(_number(), unc_pt, st.booleans()).map(
         lambda t: {"k": "paren", "s": "%s(%s)%s" % (t[0], t[1], "#" if t[2] else "")})
     plain = _number().map(lambda v: {"k": "plain", "s": v})
     nominal = _number().map(lambda v: {"k": "nominal", "s": "[%s]" % v})
@@ -382,7 +385,9 @@ def notation():
     narrow = st.tuples(st.integers(0, 300), st.text(DIG, min_size=1, max_size=6), st.text(DIG, min_size=1, max_size=6)).map(
         lambda t: {"k": "range", "s": "[%s,%s]" % tuple(sorted(["%d.%s" % (t[0], t[1]), "%d.%s" % (t[0], t[2])], key=Decimal))})
     empty = st.just({"k": "missing", "s": ""})
-    return st.one_of(paren, paren, paren, paren, plain, nominal, rng, narrow, empty)
+    # one_of() merges repeated branches, so the mix is fixed by a selector: 60 % of the strings are val(unc)
+    branches = [paren_i] * 9 + [paren_p] * 3 + [plain] * 2 + [nominal] * 2 + [rng] * 2 + [narrow] + [empty]
+    return st.integers(0, len(branches) - 1).flatmap(lambda i: branches[i])
 
 
 def check_notation(ctx, v):
